@@ -518,6 +518,54 @@ Proof.
   unfold fetch_one. rewrite Hn. reflexivity.
 Qed.
 
+(* ---- starts paired with the key setting of their request; no window holds more than 3 keyless starts ---- *)
+Fixpoint khist (s : st) (cs : list (bool * call)) : list (bool * Z) :=
+  match cs with
+  | [] => []
+  | kc :: r => let s' := rstepF s kc in (fst kc, hd 0 (hist s')) :: khist s' r
+  end.
+Definition keyless_in_window (x : Z) (l : list (bool * Z)) : nat :=
+  length (filter (fun p => negb (fst p) && in_window window x (snd p)) l).
+
+Lemma khist_app a : forall s b, khist s (a ++ b) = khist s a ++ khist (fold_left rstepF a s) b.
+Proof. induction a as [|kc a IH]; intros s b; simpl; [reflexivity|]. rewrite IH. reflexivity. Qed.
+
+Lemma khist_times cs : forall s, rev (map snd (khist s cs)) ++ hist s = hist (fold_left rstepF cs s).
+Proof.
+  induction cs as [|kc cs IH]; intros s; simpl; [reflexivity|].
+  rewrite <- IH. rewrite <- app_assoc. simpl. f_equal. unfold rstepF. symmetry. apply hist_stepF.
+Qed.
+
+Lemma keyless_le_count x l : (keyless_in_window x l <= count_in_window window x (map snd l))%nat.
+Proof.
+  unfold keyless_in_window, count_in_window. induction l as [|[k t] l IH]; simpl; [lia|].
+  destruct k; simpl; destruct (in_window window x t); simpl; lia.
+Qed.
+
+Theorem keyless_window_limit cs x : Forall (fun kc => call_ok (snd kc)) cs ->
+  (keyless_in_window x (khist init cs) <= limit false)%nat.
+Proof.
+  induction cs as [|kc cs IH] using rev_ind; intros H; [unfold keyless_in_window; simpl; lia|].
+  pose proof H as H0. apply Forall_app in H. destruct H as [Hcs Hkc].
+  rewrite khist_app. cbn [khist]. unfold keyless_in_window. rewrite filter_app, app_length. cbn [filter fst snd].
+  fold (keyless_in_window x (khist init cs)).
+  set (t := hd 0 (hist (rstepF (fold_left rstepF cs init) kc))).
+  specialize (IH Hcs).
+  destruct (negb (fst kc) && in_window window x t) eqn:E; cbn [length]; [|lia].
+  apply andb_prop in E. destruct E as [Ek Ein]. apply negb_true_iff in Ek.
+  (* the new keyless start lies in the window: everything so far in that window is at most limit false *)
+  pose proof (window_limit_current_key cs kc x H0) as Hw. cbv zeta in Hw.
+  assert (Eh: hist (runF (cs ++ [kc])) = t :: hist (fold_left rstepF cs init)).
+  { unfold runF. rewrite fold_left_app. simpl. unfold t, rstepF. apply hist_stepF. }
+  rewrite Eh in Hw. simpl in Hw. specialize (Hw Ein). rewrite Ek in Hw.
+  pose proof (keyless_le_count x (khist init cs)) as Hle.
+  pose proof (khist_times cs init) as Ht. simpl in Ht. rewrite app_nil_r in Ht.
+  rewrite <- (count_rev window x (map snd (khist init cs))), Ht in Hle.
+  unfold count_in_window in Hw. simpl in Hw. rewrite Ein in Hw. simpl in Hw.
+  unfold count_in_window in Hle. change entrez_requests with (limit false) in Hw. lia.
+Qed.
+
+
 (* non-vacuity: the same get_seq call twice with a cache directory - one request, then a hit *)
 Definition w_op : op :=
   mk_op (1%N, 0, false, None, Some (bs "R/p0"%bs), [bs "AB0001.1"%bs], bs "fasta"%bs, None, false, [(0, 0, Some (bs ">a"%bs), false)]).
